@@ -73,7 +73,7 @@ def durations(sd):
 
 play_args = st.fixed_dictionaries({
     "show": st.integers(0, 1), "speed": st.sampled_from([0.25, 0.5, 1, 1, 1.5, 3, 7]), "loops": st.sampled_from([-1, -1, 0, 1, 3]),
-    "start_step": st.sampled_from([1, 1, 2, 3, -1, -2]), "sync_ms": st.sampled_from([None, None, None, 100, 250]),
+    "start_step": st.sampled_from([1, 1, 2, 3, -1, -2]), "sync_ms": st.sampled_from([None, None, None, 0, 100, 250]),
     "manual": st.sampled_from([False, False, False, True]), "priority": st.integers(0, 2)})
 hid = st.integers(0, 2)
 op = st.one_of(
@@ -94,6 +94,8 @@ op = st.one_of(
 @st.composite
 def case_schedule(draw):
     return {"jitter": draw(jitter), "shows": [draw(show_def("a")), draw(show_def("b"))],
+            # machine-wide default for shows played without sync_ms; an explicit sync_ms (also 0) overrides it
+            "default_sync": draw(st.sampled_from([0, 0, 0, 200, 500])),
             "ops": draw(st.lists(op, min_size=3, max_size=30))}
 
 
@@ -199,7 +201,11 @@ def check_schedule(case):
         if len(vio) < 5:
             vio.append(violation(sig, msg))
     shows_cfg = {sd["name"]: render_show(sd) for sd in case["shows"]}
-    with Rig("shows17", patches={"shows": shows_cfg}, loop_cls=make_jitter_loop([j / 1000.0 for j in case["jitter"]])) as rig:
+    patches = {"shows": shows_cfg}
+    if case.get("default_sync"):
+        patches["mpf"] = {"default_show_sync_ms": case["default_sync"]}
+        classes.add("machine default sync")
+    with Rig("shows17", patches=patches, loop_cls=make_jitter_loop([j / 1000.0 for j in case["jitter"]])) as rig:
         m = rig.machine
         ev = m.events
         durs = {}
@@ -283,10 +289,15 @@ def check_schedule(case):
                             other["model"].t_stop = now
                             other["model"].next_time = None
                             other["model"].expect_events.append(("stopped", now))
+                    # the sync the show is entitled to: its own sync_ms if given (0 = none), else the machine default
+                    eff_sync = a["sync_ms"] if a["sync_ms"] is not None else case.get("default_sync", 0)
+                    if a["sync_ms"] == 0 and case.get("default_sync"):
+                        classes.add("explicit sync_ms 0 under a machine default")
+                    a_model = dict(a, sync_ms=eff_sync)
                     gen[0] += 1
-                    model = ShowModel(durs[sd["name"]], a, now, J, v, "show %s (handle %d, #%d)" % (sd["name"], h_, gen[0]))
-                    handles[h_] = {"name": sd["name"], "model": model, "show": None, "hid": h_, "args": a}
-                    marker.forced = handles[h_] if not a["sync_ms"] else None
+                    model = ShowModel(durs[sd["name"]], a_model, now, J, v, "show %s (handle %d, #%d)" % (sd["name"], h_, gen[0]))
+                    handles[h_] = {"name": sd["name"], "model": model, "show": None, "hid": h_, "args": a_model}
+                    marker.forced = handles[h_] if not eff_sync else None
                     rs = m.shows[sd["name"]].play(
                         priority=a["priority"], speed=a["speed"], start_step=a["start_step"], loops=a["loops"],
                         sync_ms=a["sync_ms"], manual_advance=a["manual"],
